@@ -10,6 +10,7 @@ import (
 	"sync"
 	"syscall"
 	"time"
+	"unsafe"
 
 	simrt "github.com/github/go-spdx/v2/zz_simrt"
 
@@ -333,7 +334,9 @@ func doOp(task int, op *proto.Op, shared map[int]*argSlice, st *taskState) {
 		if op.ScribbleRes {
 			res.scribble(op.ID)
 			st.scribR++
-		} else {
+		} else if a == nil || !aliases(res, a) {
+			// (a result that shares memory with the caller's own argument buffer is not
+			// monitored: the caller may rewrite that buffer later)
 			st.retained = append(st.retained, retained{task, op.ID, op.Fn, res, res.fingerprint()})
 		}
 	}
@@ -415,4 +418,16 @@ func trim(s string, n int) string {
 func gcNow() {
 	runtime.GC()
 	runtime.GC()
+}
+
+// aliases: does the result slice share backing memory with the argument's [0:cap]?
+func aliases(r result, a *argSlice) bool {
+	if r.kind != 1 || cap(r.strs) == 0 || cap(a.arg) == 0 {
+		return false
+	}
+	rs := r.strs[:cap(r.strs)]
+	as := a.arg[:cap(a.arg)]
+	r0, r1 := uintptr(unsafe.Pointer(&rs[0])), uintptr(unsafe.Pointer(&rs[len(rs)-1]))
+	a0, a1 := uintptr(unsafe.Pointer(&as[0])), uintptr(unsafe.Pointer(&as[len(as)-1]))
+	return r0 <= a1 && a0 <= r1
 }
